@@ -625,7 +625,82 @@ def rule_o6(ctx, facts):
                      "%d tree-bin lock region(s): whenever the bin is overwritten in its slot it is retired or re-published, never both, never neither" % len(vs))
 
 
+def rule_o7(ctx, facts):
+    """private node lists: a list of freshly boxed tree nodes whose head is kept in a local (transfer's `low` / `high`, treeify_bin's
+    `hd`) is handed to exactly one owner -- TreeBin::new (takes the nodes) or TreeBin::drop_tree_nodes (frees them) -- on every path from
+    where the head was set to the return / to the re-initialisation of the head for the next bin.  Nobody else knows these nodes, so a
+    path without a consumer leaks them together with the key clones they hold."""
+    take = [b for b in facts.bodies if b.sid.endswith("TreeBin::new") or b.sid.endswith("TreeBin::drop_tree_nodes")]
+    if len(take) < 2:
+        ctx.fail_closed("O7: TreeBin::new / TreeBin::drop_tree_nodes not found")
+        return
+    take_ids = {b.id for b in take}
+
+    def named_source(b, l):
+        seen = set()
+        while l is not None and l not in seen and not b.local_name(l):
+            seen.add(l)
+            ds = [d for d in b.defs.get(l, []) if d[1] in ("assign", "call", "arg")]
+            if len(ds) != 1 or ds[0][1] != "assign" or "use" not in ds[0][2]["rv"]:
+                return None
+            l = op_local(ds[0][2]["rv"]["use"])
+        return l
+
+    for b in facts.bodies:
+        if b.id in take_ids:
+            continue
+        fl = flow(b)
+        cons = {}
+        for c in b.calls:
+            if c.resolved in take_ids and c.args and not b.is_cleanup(c.b):
+                h = named_source(b, op_root(c.args[0]))
+                if h is not None:
+                    cons.setdefault(h, []).append(c)
+        for h, cs in sorted(cons.items()):
+            # definitions of the head: from a fresh allocation (Shared::boxed) or a null re-initialisation
+            fresh, nulls = [], []
+            for pt, kind, data in b.defs.get(h, []):
+                src = None
+                if kind == "assign" and "use" in data["rv"]:
+                    src = op_root(data["rv"]["use"])
+                roots = fl.roots_at(src, pt) if src is not None else ({("call", pt[0])} if kind == "call" else set())
+                rc = [b.call_at(r[1]) for r in roots if r[0] == "call"]
+                if rc and all(callee_str(x).endswith("Shared::null") for x in rc if x is not None):
+                    nulls.append(pt)
+                elif any(x is not None and callee_str(x).endswith("Shared::boxed") for x in rc):
+                    fresh.append(pt)
+            if not fresh:
+                continue
+            cpts = {c.point for c in cs}
+            ends = set(return_points(b)) | set(nulls)
+            leak = None
+            for d in fresh:
+                r = reach(b, after(b, d), avoid=cpts)
+                hit = [e for e in ends if e in r]
+                if hit:
+                    leak = (d, hit[0])
+                    break
+            twice = None
+            for c in cs:
+                r = reach(b, after(b, c.point, label="ret"), avoid=set(fresh) | set(nulls))
+                other = [x for x in cs if x.point in r]
+                if other:
+                    twice = (c, other[0])
+                    break
+            ok = leak is None and twice is None
+            ctx.inst("O7", b, "private list `%s`" % b.local_name(h), cs[0].span, ok,
+                     "handed to exactly one of TreeBin::new / drop_tree_nodes on every path (%d site(s))" % len(cs) if ok else
+                     ("a path from `%s = <fresh node>` at %s reaches %s without the list being given to TreeBin::new or freed by drop_tree_nodes: "
+                      "its nodes and the key clones in them leak" % (b.local_name(h), b.span_at(leak[0]),
+                                                                      "the return" if leak[1] in set(return_points(b)) else "the re-initialisation of the head for the next bin")
+                      if leak else
+                      "the list is consumed at %s and again at %s on one path" % (twice[0].span, twice[1].span)))
+
+
 def run(ctx, facts):
+    ctx.rule("O7", "a private list of fresh tree nodes is handed to exactly one of TreeBin::new / drop_tree_nodes on every path", floor=3,
+             floor_note="transfer low/high, treeify_bin hd")
+    rule_o7(ctx, facts)
     ctx.rule("O6", "a tree bin overwritten in its table slot is retired or re-published into a table before the next lock / return -- exactly one of the two "
                    "(ESP with interval refinement of the split counters)", floor=5, floor_note="transfer, clear, put, compute_if_present, replace_node")
     rule_o6(ctx, facts)
